@@ -70,6 +70,10 @@ PROBES = [
     ("temp.bound.native.callee", "print(((\"ab\" + \"c\").iter)().next()); var it = ([[1], [2]].iter)(); churn(); print(it.next()); print(it.next()); print(([1, 2, 3].len)()); print(((\"k\" + \"v\").len)());"),
     ("temp.bound.closure.callee", "#[constructor(new)] class B { fn m(self, a) { return [a, [a]]; } } try { (B.new().m)(); } catch e { print(type(e)); } print((B.new().m)(1)); var r = (B.new().m)([2]); churn(); print(r);"),
     ("temp.instance.field.callee", "#[constructor(new)] class H {} fn mk(f) { var h = H.new(); h.f = f; return h; } print(mk(String.from).f(12345)); var it = mk((\"xy\" + \"z\").iter).f(); churn(); print(it.next()); print(mk(|| [1, [2]]).f()); print(mk([5, 6].len).f());"),
+    # many fibers run to their end, each handing a fresh object to its caller: whatever a fiber switch does, the result must arrive
+    ("fiber.results.many", "var out = []; for i in 0..20 { var f = Fiber.new(|| { return [i, [i, i]]; }); out.push(f.call()); } churn(); print(out); "
+                            "var sum = 0; for i in 0..20 { var g = Fiber.new(|a| { var inner = Fiber.new(|| (a, [a])); return [inner.call(), a]; }); var r = g.call(i); sum = sum + r[0][1][0] + r[1]; } print(sum);"),
+    ("fiber.yields.many", "var f = Fiber.new(|| { var i = 0; while i < 20 { Fiber.yield([i, [i]]); i = i + 1; } return [\"end\"]; }); var got = []; for k in 0..21 { got.push(f.call()); } churn(); print(got);"),
     ("fiber.in.field", "#[constructor(new)] class H {} var h = H.new(); h.fb = Fiber.new(|| { var x = [4]; Fiber.yield(x); return x; }); print(h.fb.call()); churn(); print(h.fb.call());"),
     ("exception.in.flight", "try { try { throw [1, [2]]; } finally { churn(); } } catch e { print(e); }"),
     ("exception.instance", "try { var z = nil + 1; } catch e { churn(); print(e.context); print(type(e)); }"),
